@@ -236,6 +236,24 @@ class C14(Prop):
                 disk = b2s(body)
             o = self.rand_opts(rng, ["A", "B"] if rng.random() < 0.7 else [], 2, True)
             out.append({"stream": "load", "tag": "rnd:load", "input": {"disk": disk, "d": d, "o": o}})
+        # ---- files that start with blank lines (the reader skips them to look for the header, then has to come back to
+        #      the right place when the first non-empty line turns out to be data), skip_empty_lines on and off
+        for _ in range(120 if quick else 3000):
+            d = rng.choice(DELIMS)
+            eol = rng.choice(["\n", "\n", "\r\n"])
+            lead = eol * rng.randint(1, 3)
+            lines = []
+            for _ in range(rng.randint(1, 4)):
+                lines.append(d.join(rng.choice(["1", "2", "x", "A", "B", "", "a b"]) for _ in range(rng.randint(1, 3))))
+                if rng.random() < 0.2:
+                    lines.append("")
+            if rng.random() < 0.4:
+                lines.insert(0, "A%sB" % d)
+            disk = lead + eol.join(lines) + (eol if rng.random() < 0.8 else "")
+            o = self.rand_opts(rng, ["A", "B"] if rng.random() < 0.5 else [], 2, False)
+            o["skip"] = rng.random() < 0.4
+            o["enc"] = "utf-8"
+            out.append({"stream": "load", "tag": "lead-blank:load", "input": {"disk": disk, "d": d, "o": o}})
         return out
 
     def valid(self, case):
